@@ -30,7 +30,7 @@ def specialised_harness(t: int, workdir: Path, m_max: int = 24, o_max: int = 3) 
     """Copy of the harness in which the template index is fixed (one CrossHair process per template) and the
     bounds on the name-assignment and ordering indices are those of the tier."""
     src = HARNESS.read_text()
-    src = src.replace("pre: 0 <= t < 22 and", f"pre: t == {t} and")
+    src = src.replace("pre: 0 <= t < 24 and", f"pre: t == {t} and")
     src = src.replace("0 <= m < 24", f"0 <= m < {m_max}").replace("0 <= o < 3", f"0 <= o < {o_max}")
     p = workdir / f"c11_t{t}_{m_max}_{o_max}.py"
     p.write_text(src)
@@ -73,7 +73,7 @@ def replay_native(fn: str, args, hashseed="0"):
 def run() -> int:
     t = tier()
     rep = Report(PROP, "other")
-    templates = list(range(22))
+    templates = list(range(24))
     seeds = ["0"] if t == "quick" else ["0", "4242"]  # the cross-seed corpus below covers 12 more seeds natively
     funcs = FUNCS
     timeout_s = 240 if t == "quick" else 900
@@ -85,7 +85,7 @@ def run() -> int:
         "executed under CrossHair 0.0.110 (symbolic execution with z3) through vf/ch/c11_harness.py",
     ]
     rep.bounds = {
-        "templates": "22 product templates of 2-4 factors (two with sums over one body whose ranges are two- and three-element sets; two with a fraction whose numerator and denominator share a factor spelled differently; (two with counterfactual variables carrying two-element subscript sets, one with two sums over the same body and different ranges, one with a factor that canonicalises to a product) (the 4-factor ones are also presented with three levels of product nesting, left- and right-deep; idempotence is checked on a nested presentation) (same-first-child conditionals, population-tagged next to plain, sums, a sum collapsing to One, fractions incl. a One denominator, interventional terms)",
+        "templates": "24 product templates of 2-4 factors (two with composite factors (sums of products / fractions) that differ only in a later inner factor; two with sums over one body whose ranges are two- and three-element sets; two with a fraction whose numerator and denominator share a factor spelled differently; (two with counterfactual variables carrying two-element subscript sets, one with two sums over the same body and different ranges, one with a factor that canonicalises to a product) (the 4-factor ones are also presented with three levels of product nesting, left- and right-deep; idempotence is checked on a nested presentation) (same-first-child conditionals, population-tagged next to plain, sums, a sum collapsing to One, fractions incl. a One denominator, interventional terms)",
         "names": "assignments of the distinct names A,B,C,D to the template slots: quick the first 4, thorough all 24",
         "orderings": "quick 2, thorough 3",
         "presentations": "all factor permutations x 3 nestings x child/parent order reversed or not",
